@@ -14,10 +14,13 @@
   pairwise different recorded witnesses, more than two thirds of the witness list, each sent a
   report with verdict `ok` for `n` somewhere in `ops`.
 
-  Two clauses of the property are FALSE of the code as written; for each the full statement is
-  kept in a comment, a `_partial` theorem is proved under exactly the hypothesis the code forces,
-  and a concrete counterexample is proved (`decide`) which the harness replays on the
-  implementation (known findings KF-C15-1, KF-C15-2).
+  History: three points of the property were false of the code as first read (mint credited the
+  report's `Locker`; runERC20Lock had no existence check; runERC20Reddem ignored the failed store).
+  All were confirmed on the implementation by this slice and repaired in /repo (0a509b2, 9de5f06,
+  efdfa81); the model follows the repaired code and `mint_to_submitter`, `mint_at_most_once` and
+  `same_external_tx_one_tracker` are now proved at full strength, with the former counterexample
+  histories kept as regression examples.  One `_partial` theorem remains
+  (`supply_eq_circulation_partial`), with the reason in a comment.
 -/
 import OLP.Eth.Lemmas
 
@@ -138,108 +141,118 @@ example : [7].Nodup ∧ (∀ n ∈ [7], has (run exCfg St.empty (exHonest.take 4
 -- a Released record and a job-error-free node: the hypotheses of `cleanup_moves_released`
 example : (alookup 7 (run exCfg St.empty (exHonest.take 4)).1.ongoing).map (·.state) = some .released := by decide
 
-/-! ## 3. Mint: only after more than two thirds reported success, exactly the locked amount -/
+/-! ## 3. Mint: only after more than two thirds reported success, exactly the locked amount, to the submitter -/
 
 /-- Every mint of every history is justified by the history: pairwise different recorded witnesses,
     more than two thirds of the list, each reported success for this tracker (so reports of
-    non-witnesses, repeated reports and reports under a wrong index did not count); the minted
-    amount and currency are those of a lock submission of this external transaction; and the
-    beneficiary is the `Locker` named by one of the success reports. -/
+    non-witnesses, repeated reports and reports under a wrong index did not count); and the
+    beneficiary itself submitted a lock of this external transaction with exactly the minted amount
+    and currency. -/
 theorem mint_requires_two_thirds_and_locked_amount {c : Cfg} (hc : c.WF) (ops : List Op)
     (n : Name) (to : Addr) (cur amt : Nat) (h : Event.mint n to cur amt ∈ (run c St.empty ops).2) :
     TwoThirds c ops n true ∧
-    (∃ op ∈ ops, ∃ typ owner, op.info = .sub typ owner n amt ∧ typ.isLock = true ∧ typ.cur = cur) ∧
-    (∃ v i, Op.report n to v i true ∈ ops) := by
+    (∃ op ∈ ops, ∃ typ, op.info = .sub typ to n amt ∧ typ.isLock = true ∧ typ.cur = cur) := by
   have := (run_invH hc ops St.empty [] [] (invH_empty c)).mints n to cur amt (by simpa using h)
   simpa [MintOK] using this
 
-/-
-  FULL STATEMENT (false of the code, suspect S21, known finding KF-C15-1):
-
-    theorem mint_to_submitter {c} (hc : c.WF) (ops) (n to cur amt)
-        (h : Event.mint n to cur amt ∈ (run c St.empty ops).2) :
-        ∃ op ∈ ops, ∃ typ, op.info = .sub typ to n amt ∧ typ.isLock = true
-
-  mintTokens / mintERC20tokens credit `oltTx.Locker`, the beneficiary named by the finality report
-  that crosses the threshold, not `tracker.ProcessOwner`.  What the code forces: every report names
-  the submitter.
--/
-
-/-- if every finality report names as `Locker` the account that submitted the lock, every mint
-    goes to the submitter, in exactly the locked amount -/
-theorem mint_to_submitter_partial {c : Cfg} (hc : c.WF) (ops : List Op)
-    (honest : ∀ n l v i ok, Op.report n l v i ok ∈ ops →
-      ∀ op ∈ ops, ∀ typ o a, op.info = .sub typ o n a → l = o)
+/-- every mint goes to an account that submitted the lock, in exactly the locked amount (full
+    strength since repair 0a509b2; formerly `mint_to_submitter_partial`) -/
+theorem mint_to_submitter {c : Cfg} (hc : c.WF) (ops : List Op)
     (n : Name) (to : Addr) (cur amt : Nat) (h : Event.mint n to cur amt ∈ (run c St.empty ops).2) :
-    ∃ op ∈ ops, ∃ typ, op.info = .sub typ to n amt ∧ typ.isLock = true ∧ typ.cur = cur := by
-  obtain ⟨_, ⟨op, hop, typ, owner, hi, hl, hcur⟩, ⟨v, i, hr⟩⟩ :=
-    mint_requires_two_thirds_and_locked_amount hc ops n to cur amt h
-  have := honest n to v i true hr op hop typ owner amt hi
-  subst this
-  exact ⟨op, hop, typ, hi, hl, hcur⟩
+    ∃ op ∈ ops, ∃ typ, op.info = .sub typ to n amt ∧ typ.isLock = true ∧ typ.cur = cur :=
+  (mint_requires_two_thirds_and_locked_amount hc ops n to cur amt h).2
 
-/-- the step-level fact behind S21: whoever the submitter is, a minting report credits exactly the
-    `locker` field of that report -/
-theorem mint_credits_the_reports_locker (c : Cfg) (s : St) (n : Name) (locker voter : Addr) (idx : Int) (ok : Bool)
-    (m : Name) (to : Addr) (cur amt : Nat)
-    (h : Event.mint m to cur amt ∈ (report c s n locker voter idx ok).ev) : m = n ∧ to = locker := by
-  have he := report_eff c s n locker voter idx ok
-  generalize (report c s n locker voter idx ok).st = st' at he
-  generalize (report c s n locker voter idx ok).ev = ev' at he h
+/-- the `Locker` field of a finality report has no influence at all -/
+theorem report_ignores_the_locker_field (c : Cfg) (s : St) (n : Name) (l1 l2 voter : Addr) (idx : Int) (ok : Bool) :
+    report c s n l1 voter idx ok = report c s n l2 voter idx ok := rfl
+
+/-- a minting report credits the owner recorded in the tracker -/
+theorem mint_credits_the_tracker_owner {c : Cfg} (hc : c.WF) {s : St} (wf : St.WF c s) (n : Name)
+    (locker voter : Addr) (idx : Int) (ok : Bool) (m : Name) (to : Addr) (cur amt : Nat)
+    (h : Event.mint m to cur amt ∈ (report c s n locker voter idx ok).ev) :
+    m = n ∧ ∃ t, alookup n s.ongoing = some t ∧ to = t.owner ∧ amt = t.amount := by
+  have he := eff2_of_eff hc wf (report_eff c s n locker voter idx ok)
   cases he with
-  | mint n' t t' l' v' i' o' hi _ _ _ _ _ _ =>
+  | noop _ h2 => rw [h2] at h; simp at h
+  | create _ _ _ _ _ hi => cases hi
+  | xfer _ _ _ _ _ hi => cases hi
+  | rep n' l' v' i' o' t t' X hi hr =>
     simp only [OpInfo.rep.injEq] at hi
     obtain ⟨rfl, rfl, rfl, rfl, rfl⟩ := hi
-    simp at h; exact ⟨h.1, h.2.1⟩
-  | create _ _ _ _ _ _ _ hi => cases hi
-  | _ => simp at h
+    rcases hr.kind with ⟨hev, _⟩ | ⟨hev, _⟩ | ⟨hev, _⟩
+    · rw [hev] at h; simp at h
+    · rw [hev] at h; simp at h
+      exact ⟨h.1, t, hr.vs.hget, h.2.1, h.2.2.2⟩
+    · rw [hev] at h; simp at h
 
-/-- COUNTEREXAMPLE (replayed on the implementation): account 1 locks 40 wei; the third, crossing
-    success report names account 2; account 2 is credited, account 1 gets nothing. -/
-theorem mint_goes_to_named_locker_not_submitter :
-    (run exCfg St.empty exLiar).2 = [.mint 7 2 0 40] ∧
-    balGet (run exCfg St.empty exLiar).1.bal 2 0 = 40 ∧ balGet (run exCfg St.empty exLiar).1.bal 1 0 = 0 := by
+/-- REGRESSION EXAMPLE (was the counterexample of KF-C15-1, replayed on the implementation as a
+    scripted scenario): account 1 locks 40 wei; the crossing success report names account 2;
+    account 1 is credited, account 2 gets nothing. -/
+theorem lying_report_is_harmless :
+    (run exCfg St.empty exLiar).2 = [.mint 7 1 0 40] ∧
+    balGet (run exCfg St.empty exLiar).1.bal 1 0 = 40 ∧ balGet (run exCfg St.empty exLiar).1.bal 2 0 = 0 := by
   decide
 
 example : (run exCfg St.empty exHonest).2 = [.mint 7 1 0 40] := by decide
-example : ∀ n l v i ok, Op.report n l v i ok ∈ exHonest → ∀ op ∈ exHonest, ∀ typ o a, op.info = .sub typ o n a → l = o := by
-  intro n l v i ok h op hop typ o a hi
-  simp [exHonest] at h hop
-  rcases hop with rfl | rfl | rfl | rfl | rfl <;> simp [Op.info, subTyp] at hi
-  obtain ⟨_, rfl, rfl, _⟩ := hi
-  rcases h with ⟨_, rfl, _⟩ | ⟨_, rfl, _⟩ | ⟨_, rfl, _⟩ <;> rfl
 
 /-! ## 4. Mint at most once; one tracker per external transaction -/
 
-/-
-  FULL STATEMENTS (false of the code, known finding KF-C15-2):
-
-    theorem mint_at_most_once {c} (hc : c.WF) (ops) (n) : mintCount n (run c St.empty ops).2 ≤ 1
-    theorem same_external_tx_one_tracker {c} (hc : c.WF) (ops) (n) :
-        let s := (run c St.empty ops).1
-        ¬ (has s.ongoing n ∧ has s.passed n) ∧ ¬ (has s.ongoing n ∧ has s.failed n) ∧ ¬ (has s.passed n ∧ has s.failed n)
-
-  runERC20Lock has no existence check at all (it overwrites an ongoing tracker — owner and votes —
-  and ignores the passed store), runERC20Reddem does not consult the failed store.  What the code
-  forces: `FreshERC ops` — every ERC20 submission carries an external transaction that no earlier
-  submission carried.  ETH_LOCK / ETH_REDEEM need no hypothesis: their checks are in the model.
--/
-
-theorem mint_at_most_once_partial {c : Cfg} (hc : c.WF) (ops : List Op) (hf : FreshERC ops) (n : Name) :
+/-- at most one mint per external transaction, for every history (full strength since repair
+    9de5f06; formerly `mint_at_most_once_partial`) -/
+theorem mint_at_most_once {c : Cfg} (hc : c.WF) (ops : List Op) (n : Name) :
     mintCount n (run c St.empty ops).2 ≤ 1 := by
-  obtain ⟨u, I⟩ := run_invM hc ops St.empty [] [] (invM_empty c) hf
-  simpa using I.once n
+  simpa using (run_invM hc ops St.empty [] (invM_empty c)).once n
 
-/-- at every reachable state an external transaction backs at most one tracker record -/
-theorem same_external_tx_one_tracker_partial {c : Cfg} (hc : c.WF) (ops : List Op) (hf : FreshERC ops) (n : Name) :
+/-- in no reachable state does an external transaction back an ongoing tracker and a completed one
+    (full strength) -/
+theorem never_ongoing_and_completed {c : Cfg} (hc : c.WF) (ops : List Op) (n : Name) :
+    ¬ (has (run c St.empty ops).1.ongoing n = true ∧ has (run c St.empty ops).1.passed n = true) := by
+  intro h
+  have := (run_invM hc ops St.empty [] (invM_empty c)).dOP n h.1
+  rw [h.2] at this; cases this
+
+/-- at every reachable state an external transaction backs at most one tracker record across the
+    three stores (full strength since repairs 9de5f06 and efdfa81; formerly
+    `same_external_tx_one_tracker_partial` under a freshness hypothesis for ERC20 submissions) -/
+theorem same_external_tx_one_tracker {c : Cfg} (hc : c.WF) (ops : List Op) (n : Name) :
     ¬ (has (run c St.empty ops).1.ongoing n = true ∧ has (run c St.empty ops).1.passed n = true) ∧
     ¬ (has (run c St.empty ops).1.ongoing n = true ∧ has (run c St.empty ops).1.failed n = true) ∧
     ¬ (has (run c St.empty ops).1.passed n = true ∧ has (run c St.empty ops).1.failed n = true) := by
-  obtain ⟨u, I⟩ := run_invM hc ops St.empty [] [] (invM_empty c) hf
+  have I := run_invD hc ops St.empty (invD_empty c)
   refine ⟨fun h => ?_, fun h => ?_, fun h => ?_⟩
   · have := I.dOP n h.1; rw [h.2] at this; cases this
   · have := I.dOF n h.1; rw [h.2] at this; cases this
   · have := I.dPF n h.1; rw [h.2] at this; cases this
+
+/-- REGRESSION EXAMPLE (was the counterexample for the hypothesis runERC20Reddem forced, replayed on
+    the implementation as a scripted scenario): after a failed ETH redeem of external transaction 9
+    an ERC20 redeem carrying the same transaction is refused; 9 stays in the failed store only and
+    no token is debited. -/
+theorem erc20_redeem_after_failed_redeem_is_refused :
+    has (run exCfg St.empty exTwoRecords).1.ongoing 9 = false ∧ has (run exCfg St.empty exTwoRecords).1.failed 9 = true ∧
+    balGet (run exCfg St.empty exTwoRecords).1.bal 1 1 = 30 ∧ refundCount 9 (run exCfg St.empty exTwoRecords).2 = 1 := by
+  decide
+
+/-- the existence checks of ERC20_REDEEM now cover all three stores as well -/
+theorem duplicate_erc20_redeem_rejected (c : Cfg) (s : St) (pre : Nat) (tt : Bool) (o : Addr) (n : Name) (a : Nat)
+    (hpre : pre ≠ 9) (h : s.knows n = true) :
+    (step c s (.redeem true pre tt o n a)).st = s ∧ (step c s (.redeem true pre tt o n a)).ev = [] ∧
+    ∃ r, (step c s (.redeem true pre tt o n a)).res = .fail r := by
+  simp only [step, redeemErc, hpre, if_false]
+  split; · exact ⟨rfl, rfl, _, rfl⟩
+  split
+  · exact ⟨rfl, rfl, _, rfl⟩
+  · split
+    · exact ⟨rfl, rfl, _, rfl⟩
+    · split
+      · exact ⟨rfl, rfl, _, rfl⟩
+      · rename_i hex
+        simp only [St.knows, Bool.or_eq_true] at h
+        simp only [Bool.or_eq_true, not_or, Bool.not_eq_true] at hex
+        rcases h with (h | h) | h
+        · rw [hex.1.1] at h; cases h
+        · rw [hex.2] at h; cases h
+        · rw [hex.1.2] at h; cases h
 
 /-- the existence checks of ETH_LOCK: while the external transaction backs an ongoing or a completed
     tracker, a second submission is rejected and changes nothing (any state, any submitter) -/
@@ -278,21 +291,35 @@ theorem duplicate_eth_redeem_rejected (c : Cfg) (s : St) (pre : Nat) (tt : Bool)
         · rw [hex.2] at h; cases h
         · rw [hex.1.2] at h; cases h
 
-/-- COUNTEREXAMPLE (replayed on the implementation): the same ERC20 lock transaction is accepted
-    again after it completed; the witnesses, who see the same final Ethereum transaction, report
-    success again and the 30 tokens are minted a second time; the name then sits in the ongoing
-    and in the passed store. -/
-theorem erc20_lock_resubmission_mints_twice :
-    mintCount 8 (run exCfg St.empty exDoubleMint).2 = 2 ∧
-    balGet (run exCfg St.empty exDoubleMint).1.bal 1 1 = 60 ∧
-    has (run exCfg St.empty exDoubleMint).1.ongoing 8 = true ∧ has (run exCfg St.empty exDoubleMint).1.passed 8 = true ∧
-    ¬ FreshERC exDoubleMint := by
+/-- the same for ERC20_LOCK (repair 9de5f06): a resubmission changes nothing and moves no value -/
+theorem duplicate_erc20_lock_rejected (c : Cfg) (s : St) (pre : Nat) (l : Addr) (n : Name) (a : Nat)
+    (h : has s.ongoing n = true ∨ has s.passed n = true) :
+    (step c s (.lock true pre l n a)).st = s ∧ (step c s (.lock true pre l n a)).ev = [] ∧
+    ∀ b, (step c s (.lock true pre l n a)).res ≠ .ok b := by
+  simp only [step, lockErc]
+  split; · exact ⟨rfl, rfl, by simp [failOut]⟩
+  split; · exact ⟨rfl, rfl, by simp [failOut]⟩
+  split; · exact ⟨rfl, rfl, by simp⟩
+  split; · exact ⟨rfl, rfl, by simp [failOut]⟩
+  split
+  · exact ⟨rfl, rfl, by simp [failOut]⟩
+  · rename_i hex
+    rcases h with h | h <;> simp [h] at hex
+
+/-- REGRESSION EXAMPLE (was the counterexample of KF-C15-2, replayed on the implementation as a
+    scripted scenario): the ERC20 lock transaction 8 is resubmitted after it completed; it is
+    refused, the later reports find no tracker, 30 tokens were minted once. -/
+theorem erc20_lock_resubmission_is_refused :
+    mintCount 8 (run exCfg St.empty exDoubleMint).2 = 1 ∧
+    balGet (run exCfg St.empty exDoubleMint).1.bal 1 1 = 30 ∧
+    has (run exCfg St.empty exDoubleMint).1.ongoing 8 = false ∧ has (run exCfg St.empty exDoubleMint).1.passed 8 = true := by
   decide
 
-example : FreshERC exHonest ∧ FreshERC exRefund ∧ mintCount 7 (run exCfg St.empty exRefund).2 = 1 := by decide
--- the hypotheses of the two rejection theorems hold on reachable states (ongoing, then completed)
+example : mintCount 7 (run exCfg St.empty exRefund).2 = 1 := by decide
+-- the hypotheses of the rejection theorems hold on reachable states (ongoing, then completed)
 example : has (run exCfg St.empty (exHonest.take 2)).1.ongoing 7 = true ∧ has (run exCfg St.empty exHonest).1.passed 7 = true ∧
     (step exCfg (run exCfg St.empty exHonest).1 (.lock false 0 2 7 40)).res = .fail "exists" ∧
+    (step exCfg (run exCfg St.empty exHonest).1 (.lock true 0 2 7 40)).res = .fail "exists" ∧
     (run exCfg St.empty exHonest).1.knows 7 = true ∧
     (step exCfg (run exCfg St.empty exHonest).1 (.redeem false 0 false 1 7 5)).res = .fail "exists" := by decide
 
@@ -390,12 +417,17 @@ theorem tracker_comes_from_submission {c : Cfg} (hc : c.WF) (ops : List Op) (n :
 /-! ## 7. The supply counter equals the wrapped tokens in circulation -/
 
 /-
-  FULL STATEMENT (false of the code in one corner): the counter equals the circulation after every
-  history.  A finality report may name the supply address itself as `Locker` (S21 again): the mint
-  then raises the counter twice and the circulation not at all.  What the code forces: no
-  submitter, named beneficiary, sender or receiver is the supply address (`Op.avoids`); submitters
-  and senders cannot be (nobody holds a key for that address, SEND validation refuses the
-  22-byte address), the report's `Locker` can.
+  FULL STATEMENT: the counter equals the circulation after every history.  Since repair 0a509b2 a
+  report can no longer touch it (the former counterexample `lying_locker_can_double_count_the_supply`
+  is gone; see the regression example below).  A hypothesis is still forced, but by the model's
+  scope rather than by a defect: the model has no signature / validation layer, so nothing in it
+  stops a history in which the supply address itself submits a lock or redeem, or sends or receives
+  a SEND; then the counter's own record is also a holder's record and the equation cannot hold.  In
+  the implementation nobody holds a key for that address (it is the raw bytes of the option string
+  `TotalSupplyAddr`, 22 bytes in the devnet) and Send.Validate — now also run in DeliverTx — refuses
+  a receiver that is not 20 bytes long; both are outside this slice (C03/C04).  Hypothesis:
+  `Op.avoids c.supply` for every operation (it constrains submitters, senders and receivers only,
+  no longer the report's `Locker`).
 -/
 theorem supply_eq_circulation_partial {c : Cfg} (hc : c.WF) (ops : List Op)
     (hav : ∀ op ∈ ops, op.avoids c.supply = true) (cur : Nat) :
@@ -406,10 +438,13 @@ theorem supply_eq_circulation_partial {c : Cfg} (hc : c.WF) (ops : List Op)
   unfold gap at this
   exact ⟨by omega, I.nodup⟩
 
-/-- COUNTEREXAMPLE: the crossing report names the supply address 99: counter 80, circulation 0 -/
-theorem lying_locker_can_double_count_the_supply :
+/-- REGRESSION EXAMPLE (was a counterexample of KF-C15-1): the crossing report names the supply
+    address 99; the mint goes to account 1 and counter = circulation = 40; such a history satisfies
+    the hypothesis of `supply_eq_circulation_partial` -/
+theorem lying_report_cannot_touch_the_supply :
     let ops : List Op := [.lock false 0 1 7 40, .report 7 1 11 0 true, .report 7 1 12 1 true, .report 7 99 13 2 true]
-    balGet (run exCfg St.empty ops).1.bal 99 0 = 80 ∧ circ 99 0 (run exCfg St.empty ops).1.bal = 0 := by
+    (∀ op ∈ ops, op.avoids exCfg.supply = true) ∧
+    balGet (run exCfg St.empty ops).1.bal 99 0 = 40 ∧ circ 99 0 (run exCfg St.empty ops).1.bal = 40 := by
   decide
 
 example : (∀ op ∈ exRefund, op.avoids exCfg.supply = true) ∧
